@@ -22,7 +22,7 @@ def gen_cases(rng, n, ops=DENSE_OPS):
             a_, b_ = g.formula(1), g.formula(1)
             o1, o2 = rng.choice(["ev", "alw", "once", "hist"]), rng.choice(["ev", "alw", "once", "hist"])
             phi = un(o1, bi(rng.choice(["and", "or", "implies"]), a_, un(o2, b_)))
-        elif r_ < 0.3:      # bounded operators directly on a signal with many samples
+        elif r_ < 0.4:      # bounded operators directly on a signal with many samples
             iv = rng.choice(IVS + [(0, 5), (1, 6), (2, 4)])
             op = rng.choice(["evT", "alwT", "onceT", "histT", "untilT", "sinceT"])
             phi = un(op, g.atom(), *iv) if op in UN_TIMED else bi(op, g.atom(), g.atom(), *iv)
@@ -47,6 +47,9 @@ def gen_cases(rng, n, ops=DENSE_OPS):
         t0 = rng.choice([0, 0, 0, 1, 2]) if rng.random() < 0.3 else 0
         for v in vs:
             w[v] = gen_signal(rng, rng.choice([1, 2, 3, 4, 6, 8]), t0=min(t0, end - 1), S=S, end=end)
+            if 0.15 <= r_ < 0.4 and rng.random() < 0.6:
+                # staircases after an extreme value, many short levels (the sweeps discard several dominated intervals at once)
+                w[v] = gen_signal(rng, rng.choice([5, 6, 8, 9]), t0=min(t0, end - 1), S=S, end=max(end, 8), stair=True)
         if diffstart and rng.random() < 0.5:
             # shaped: an unbounded past operator over the signal that begins first, combined with a signal that begins later
             e_, l_ = rng.sample(vs, 2)
